@@ -246,3 +246,35 @@ package callbacks
 //@   not-in callbacks.Create$1 callbacks.Update$1 callbacks.Delete$1 callbacks.Query callbacks.RawExec callbacks.RowQuery gorm.(*processor).Execute gorm.(*DB).Save gorm.(*DB).Row gorm.(*DB).Rows
 //@   min-sites 0
 //@   assert not-read-while-building-a-statement: false [C19]
+
+//@ # ---------- C03: Create from a slice of maps keeps every value in its own row and column ----------
+//@ # Maps may have different key sets: a value is stored at the position of its map in the slice (row) and, in the
+//@ # second pass, at the position of its column; rows without the key keep NULL. Nothing is ever appended.
+//@ site map-values-stay-in-their-row
+//@   match storeelem interface{}
+//@   in callbacks.ConvertSliceOfMapToValuesForCreate
+//@   min-sites 2
+//@   assert stored-at-the-loop-position: arg1 == idx [C03]
+//@   assert the-value-read-for-that-position: arg0 == v [C03]
+
+//@ # ---------- C03: generated keys are handed out in slice order (no RETURNING) ----------
+//@ # Without RETURNING the driver reports one id: of the first inserted row, or of the last one (LastInsertIDReversed).
+//@ # Records that came with their own key did not consume a generated id, so the running id moves by one increment
+//@ # per record that is given a key, from the reported id: down while walking backwards, up while walking forwards.
+//@ ghost idGoingDown idGoingUp
+//@ event calldyn Field.Set
+//@   in callbacks.Create$1
+//@   do idGoingDown = idGoingDown - pkField.AutoIncrementIncrement
+//@   do idGoingUp = idGoingUp + pkField.AutoIncrementIncrement
+//@ func Create$1
+//@   tags C03
+//@   loop "i := db.Statement.ReflectValue.Len() - 1; i >= 0; i--" entry-do idGoingDown = insertID
+//@   loop "i := db.Statement.ReflectValue.Len() - 1; i >= 0; i--" invariant one-step-down-per-key-given: insertID == idGoingDown
+//@   loop "i := 0; i < db.Statement.ReflectValue.Len(); i++" entry-do idGoingUp = insertID
+//@   loop "i := 0; i < db.Statement.ReflectValue.Len(); i++" invariant one-step-up-per-key-given: insertID == idGoingUp
+//@ site generated-key-is-the-running-id
+//@   match calldyn Field.Set
+//@   in callbacks.Create$1
+//@   min-sites 3
+//@   assert key-given-is-the-running-id: is(arg2, int64) && arg2.(int64) == insertID [C03]
+//@   assert only-to-records-without-a-key: isZero [C03]
